@@ -32,7 +32,7 @@ func cases(tier string) int {
 	if tier == "thorough" {
 		return 8000
 	}
-	return 640
+	return 1600
 }
 
 // evictionCost re-implements the documented formula: 1 + deletionCost/2^27 + priority/2^25, clamped to [-10, 10].
